@@ -263,6 +263,13 @@ def _return_address(chk: Check, ctx: Any) -> None:
                        "the copied start label does not keep length_of_macro", "length relayed", node=c)
             chk.decide("C08-R3", "copy-label:mapping", norm(b.get("parameter_mapping", ast.Constant(None))).endswith(".parameter_mapping"), cp,
                        "the copied start label does not keep parameter_mapping", "mapping relayed", node=c)
+    # every blueprint label reaches the output through _copy_blueprint_label (which keeps the start/end label type that drives the nested push/pop)
+    raw = [c for c in ast.walk(loop) if isinstance(c, ast.Call) and (dotted(c.func) or "") in ("SsbLabel", "MacroStartSsbLabel", "MacroEndSsbLabel")
+           and any("blueprint_op" in norm(a) for a in list(c.args) + [k.value for k in c.keywords])]
+    chk.decide("C08-R3", "build:labels-copied-with-type", not raw, build,
+               f"`{norm(raw[0])[:70] if raw else ''}` re-creates a blueprint label as a plain label: the start/end label of a nested expansion loses its type, the outer "
+               "expansion no longer pushes/pops the nested return address and ops after the nested call carry the wrong return address",
+               "blueprint labels are copied by _copy_blueprint_label only", node=raw[0] if raw else None)
     # push before any number is drawn
     cfg = build_cfg(fn)
     dom = cfg.dominators()
@@ -393,6 +400,26 @@ def _files(chk: Check, ctx: Any) -> None:
             chk.unknown("C08-R4", key, bo, f"file argument {txt} not recognised", node=c)
         chk.decide("C08-R1", key + ":number", norm(b.get("op_offset", ast.Constant(None))) == "new_op_idx", bo,
                    "macro op registered under a different number than the op is created with", "registered under new_op_idx", node=c)
+    # call position of a nested expansion: recorded in the file of the macro that contains the call (this macro), unless already set
+    nci = [c for c in walk_no_nested(bo.node) if isinstance(c, ast.Call) and isinstance(c.func, ast.Attribute) and c.func.attr == "next_macro_opcode_called_in"]
+    if len(nci) != 1 or not nci[0].args:
+        chk.unknown("C08-R4", "_build_op:called-in-file", bo, "next_macro_opcode_called_in(...) not found exactly once")
+    else:
+        a0 = nci[0].args[0]
+        if isinstance(a0, ast.Name):
+            vals = [norm(n.value) for n in walk_no_nested(bo.node) if isinstance(n, ast.Assign) and norm(n.targets[0]) == a0.id]
+        else:
+            vals = [norm(a0)]
+        own = [v for v in vals if v == "self.included__relative_path"]
+        relayed = [v for v in vals if v.endswith(".called_in[0]")]
+        other = [v for v in vals if v not in own and v not in relayed]
+        if other:
+            chk.violation("C08-R4", "_build_op:called-in-file", bo,
+                          f"the file of a nested call position is taken from `{other[0]}`: the call is written in this macro's file (self.included__relative_path), "
+                          "not in the file of the macro being called", node=nci[0])
+        else:
+            chk.decide("C08-R4", "_build_op:called-in-file", bool(own), bo, "the call position of a nested expansion never names this macro's file",
+                       "call position: this macro's file unless an outer relay already set it", node=nci[0])
     # marks: direct under own file; relayed None corrected
     build = repo.func(f"{MACRO}:ExplorerScriptMacro.build")
     amp = [c for c in walk_no_nested(build.node) if isinstance(c, ast.Call) and isinstance(c.func, ast.Attribute) and c.func.attr == "add_macro_position_mark"]
